@@ -33,8 +33,41 @@ fn typ_name(t: IceCandidateType) -> &'static str {
 // ---------------------------------------------------------------------------------------------
 // symbolic cases (replayable: no addresses inside)
 
-#[derive(Clone, Copy, Debug, PartialEq)] pub enum User { None, Wrong, Ok }
-#[derive(Clone, Copy, Debug, PartialEq)] pub enum Mi { None, Corrupt, WrongKey, Ok, RemoteKey }
+/// `Near(k)`: a USERNAME that is close to, but not, `<ufrag>:<anything>` (see `near_user`)
+#[derive(Clone, Copy, Debug, PartialEq)] pub enum User { None, Wrong, Ok, Near(u8) }
+/// `NearKey(k)`: a full, well-placed 20-byte HMAC under a key close to, but not equivalent to, the local password (see `near_key`)
+#[derive(Clone, Copy, Debug, PartialEq)] pub enum Mi { None, Corrupt, WrongKey, Ok, RemoteKey, NearKey(u8) }
+pub const NEAR_USERS: u8 = 10;
+pub const NEAR_KEYS: u8 = 12;
+impl User {
+    pub fn code(self) -> u8 { match self { User::None => 0, User::Wrong => 1, User::Ok => 2, User::Near(k) => 3 + k } }
+    pub fn from_code(c: usize) -> Option<User> { Some(match c { 0 => User::None, 1 => User::Wrong, 2 => User::Ok, k if k < 3 + NEAR_USERS as usize => User::Near(k as u8 - 3), _ => return None }) }
+}
+impl Mi {
+    pub fn code(self) -> u8 { match self { Mi::None => 0, Mi::Corrupt => 1, Mi::WrongKey => 2, Mi::Ok => 3, Mi::RemoteKey => 4, Mi::NearKey(k) => 5 + k } }
+    pub fn from_code(c: usize) -> Option<Mi> { Some(match c { 0 => Mi::None, 1 => Mi::Corrupt, 2 => Mi::WrongKey, 3 => Mi::Ok, 4 => Mi::RemoteKey, k if k < 5 + NEAR_KEYS as usize => Mi::NearKey(k as u8 - 5), _ => return None }) }
+}
+fn flip_case(s: &str) -> String { s.chars().map(|c| if c.is_ascii_lowercase() { c.to_ascii_uppercase() } else if c.is_ascii_uppercase() { c.to_ascii_lowercase() } else { c }).collect() }
+/// the class "any key other than the local password": keys an implementation slip would plausibly also accept.
+/// (HMAC pads a short key with zero bytes, so `pwd ++ 00` is the SAME key and is not in the pool.)
+pub fn near_key(k: u8, ufrag: &str, pwd: &str) -> Vec<u8> {
+    let p = pwd.as_bytes();
+    match k {
+        0 => vec![], 1 => p[..1].to_vec(), 2 => ufrag.as_bytes().to_vec(), 3 => p[..p.len() - 1].to_vec(), 4 => p[1..].to_vec(),
+        5 => { let f = flip_case(pwd); if f == pwd { format!("{pwd}x").into_bytes() } else { f.into_bytes() } }
+        6 => [p, p].concat(), 7 => REMOTE_UFRAG.as_bytes().to_vec(), 8 => format!("{pwd} ").into_bytes(), 9 => format!("{ufrag}:{pwd}").into_bytes(),
+        10 => vec![0x20], _ => format!(" {pwd}").into_bytes(),
+    }
+}
+/// the class "any USERNAME whose part before the first colon is not exactly the local ufrag"
+pub fn near_user(k: u8, ufrag: &str) -> String {
+    match k {
+        0 => { let f = flip_case(ufrag); if f == ufrag { format!("{ufrag}X:remoteufrag") } else { format!("{f}:remoteufrag") } }
+        1 => format!(" {ufrag}:remoteufrag"), 2 => format!("{ufrag} :remoteufrag"), 3 => format!("{}:remoteufrag", &ufrag[..ufrag.len() - 1]),
+        4 => format!("{ufrag}x:remoteufrag"), 5 => format!("{REMOTE_UFRAG}:{ufrag}"), 6 => ufrag.to_string(), 7 => format!("{ufrag};remoteufrag"),
+        8 => format!("{ufrag}\u{0}:remoteufrag"), _ => format!("remoteufrag:{ufrag}:x"),
+    }
+}
 #[derive(Clone, Copy, Debug, PartialEq)] pub enum Sk { Udp0, Udp1, Tcp, Turn, Shared, Listener }
 #[derive(Clone, Debug, PartialEq)]
 pub enum What {
@@ -66,7 +99,7 @@ impl Case {
         for p in &self.pkts {
             let sk = match p.sock { Sk::Udp0 => "u0", Sk::Udp1 => "u1", Sk::Tcp => "tcp", Sk::Turn => "turn", Sk::Shared => "sh", Sk::Listener => "li" };
             let w = match &p.what {
-                What::Req { user, mi, uc, method } => format!("req.{}.{}.{}.{}", *user as u8, *mi as u8, *uc as u8, method),
+                What::Req { user, mi, uc, method } => format!("req.{}.{}.{}.{}", user.code(), mi.code(), *uc as u8, method),
                 What::Resp { tx, error, method } => format!("resp.{tx}.{}.{method}", *error as u8),
                 What::Ind => "ind".into(), What::Garbage(b) => format!("gar.{}", hex(b)), What::Empty => "empty".into(), What::Data(b) => format!("data.{}", hex(b)),
                 What::Raw { layout, uc } => format!("raw.{layout}.{}", *uc as u8),
@@ -88,7 +121,7 @@ impl Case {
             let f: Vec<&str> = w.split('.').collect();
             let sock = match sk { "u0" => Sk::Udp0, "u1" => Sk::Udp1, "tcp" => Sk::Tcp, "sh" => Sk::Shared, "li" => Sk::Listener, _ => Sk::Turn };
             let what = match f[0] {
-                "req" => What::Req { user: [User::None, User::Wrong, User::Ok][f[1].parse::<usize>().ok()?], mi: [Mi::None, Mi::Corrupt, Mi::WrongKey, Mi::Ok, Mi::RemoteKey][f[2].parse::<usize>().ok()?], uc: f[3] == "1", method: f[4].parse().ok()? },
+                "req" => What::Req { user: User::from_code(f[1].parse::<usize>().ok()?)?, mi: Mi::from_code(f[2].parse::<usize>().ok()?)?, uc: f[3] == "1", method: f[4].parse().ok()? },
                 "resp" => What::Resp { tx: f[1].parse().ok()?, error: f[2] == "1", method: f[3].parse().ok()? },
                 "raw" => What::Raw { layout: f[1].parse().ok()?, uc: f[2] == "1" },
                 "tick" => What::Tick,
@@ -353,12 +386,12 @@ fn packet_bytes(b: &Built, p: &Pkt, tx_rng: &mut Rng) -> (Vec<u8>, Option<bool>)
         What::Req { user, mi, uc, method } => {
             let tx: [u8; 12] = tx_rng.bytes(12).try_into().unwrap();
             let mut attrs = vec![];
-            match user { User::None => {}, User::Wrong => attrs.push(StunAttribute::Username("deadbeefdeadbeef:remote".into())), User::Ok => attrs.push(StunAttribute::Username(format!("{}:remoteufrag", b.ufrag))) }
+            match user { User::None => {}, User::Wrong => attrs.push(StunAttribute::Username("deadbeefdeadbeef:remote".into())), User::Ok => attrs.push(StunAttribute::Username(format!("{}:remoteufrag", b.ufrag))), User::Near(k) => attrs.push(StunAttribute::Username(near_user(*k, &b.ufrag))) }
             attrs.push(StunAttribute::Priority(1845501695));
             attrs.push(StunAttribute::IceControlling(7));
             if *uc { attrs.push(StunAttribute::UseCandidate); }
             let m = StunMessage { class: StunClass::Request, method: METHODS[(*method % 3) as usize], transaction_id: tx, attributes: attrs };
-            let mut bytes = match mi { Mi::None => m.encode(None, true), Mi::WrongKey => m.encode(Some(b"not-the-local-password"), true), Mi::RemoteKey => m.encode(Some(REMOTE_PWD.as_bytes()), true), _ => m.encode(Some(b.pwd.as_bytes()), true) }.unwrap();
+            let mut bytes = match mi { Mi::None => m.encode(None, true), Mi::WrongKey => m.encode(Some(b"not-the-local-password"), true), Mi::RemoteKey => m.encode(Some(REMOTE_PWD.as_bytes()), true), Mi::NearKey(k) => m.encode(Some(&near_key(*k, &b.ufrag, &b.pwd)), true), _ => m.encode(Some(b.pwd.as_bytes()), true) }.unwrap();
             if *mi == Mi::Corrupt { let n = bytes.len(); bytes[n - 8 - 5] ^= 0x01; }   // inside the HMAC value (FINGERPRINT left stale on purpose)
             (bytes, Some(*user == User::Ok && *mi == Mi::Ok))
         }
@@ -377,7 +410,8 @@ fn packet_bytes(b: &Built, p: &Pkt, tx_rng: &mut Rng) -> (Vec<u8>, Option<bool>)
 }
 
 fn variant(user: User, mi: Mi) -> &'static str {
-    match (user, mi) { (User::None, Mi::None) => "no-credentials", (User::Ok, _) => "bad-integrity", (_, Mi::Ok) => "wrong-username", _ => "wrong-username-bad-integrity" }
+    match (user, mi) { (User::None, Mi::None) => "no-credentials", (User::Ok, Mi::NearKey(_)) => "integrity-under-near-miss-key", (User::Ok, _) => "bad-integrity",
+        (User::Near(_), Mi::Ok) => "near-miss-username", (_, Mi::Ok) => "wrong-username", _ => "wrong-username-bad-integrity" }
 }
 
 /// run one case; returns (op-line input, impl output)
@@ -421,7 +455,7 @@ pub fn run_batch(env: &mut Env, run: &mut Run, cases: Vec<Case>, verbose: bool) 
     let planned: Vec<(Case, Built, Option<(Case, Built)>)> = cases.into_iter().map(|c| {
         let b = build(env, &c);
         let mut erased = c.clone();
-        erased.pkts.retain(|p| !is_unauth_request(p));
+        erased.pkts.retain(|p| !is_noise(&c, p));
         let twin = if c.webrtc && erased.pkts.len() != c.pkts.len() { let eb = build(env, &erased); Some((erased, eb)) } else { None };
         (c, b, twin)
     }).collect();
@@ -431,7 +465,7 @@ pub fn run_batch(env: &mut Env, run: &mut Run, cases: Vec<Case>, verbose: bool) 
         if let Some((ec, eb)) = twin {
             let eobs = exec_built(env, run, &ec, eb, false, false);
             // align: observation after every kept event (and the initial one)
-            let kept: Vec<usize> = std::iter::once(0).chain(c.pkts.iter().enumerate().filter(|(_, p)| !is_unauth_request(p)).map(|(i, _)| i + 1)).collect();
+            let kept: Vec<usize> = std::iter::once(0).chain(c.pkts.iter().enumerate().filter(|(_, p)| !is_noise(&c, p)).map(|(i, _)| i + 1)).collect();
             let role = if c.controlling { "controlling" } else { "controlled" };
             for (k, &i) in kept.iter().enumerate() {
                 let (a, e) = (&obs[i], &eobs[k]);
@@ -448,8 +482,27 @@ pub fn run_batch(env: &mut Env, run: &mut Run, cases: Vec<Case>, verbose: bool) 
     }
 }
 
-fn is_unauth_request(p: &Pkt) -> bool {
-    match &p.what { What::Req { user, mi, .. } => !(*user == User::Ok && *mi == Mi::Ok), What::Raw { layout, .. } => !LAYOUTS[*layout as usize].1, _ => false }
+/// the events the property calls without influence (`Noise` of the Lean side): requests built without this
+/// session's credentials, responses with an id that was never outstanding, indications, undecodable STUN-range
+/// bytes, empty datagrams
+fn is_noise(c: &Case, p: &Pkt) -> bool {
+    match &p.what {
+        What::Req { user, mi, .. } => !(*user == User::Ok && *mi == Mi::Ok), What::Raw { layout, .. } => !LAYOUTS[*layout as usize].1,
+        What::Resp { tx, .. } => *tx >= c.pending, What::Garbage(_) | What::Empty => true,
+        // indications / media: only from a source that can at no point of the case be the selected pair's remote address
+        What::Ind | What::Data(_) => stranger_source(c, p),
+        What::Tick => false,
+    }
+}
+/// the source of `p` is no remote candidate of the case, is never the source of a request that carries
+/// credentials (which would make it a peer-reflexive remote) and is not the latching alias of a remote
+fn stranger_source(c: &Case, p: &Pkt) -> bool {
+    if p.sock == Sk::Tcp { return false; }                       // the TCP peer is the remote candidate of bit 8 / of the accepted stream
+    let k = p.src % 4;
+    if k < 3 && c.remotes & (1 << k) != 0 { return false; }
+    if k == 3 && c.latching { return false; }                    // same port as peer 0 on another IP: the latching branch may move the pair there
+    !c.pkts.iter().any(|q| q.src % 4 == k && q.sock != Sk::Tcp && match &q.what {
+        What::Req { user, mi, .. } => (*user == User::Ok && *mi == Mi::Ok) || !c.webrtc, What::Raw { layout, .. } => LAYOUTS[*layout as usize].1 || !c.webrtc, _ => false })
 }
 
 fn exec_built(env: &mut Env, run: &mut Run, c: &Case, mut b: Built, emit: bool, verbose: bool) -> Vec<Obs> {
@@ -460,8 +513,10 @@ fn exec_built(env: &mut Env, run: &mut Run, c: &Case, mut b: Built, emit: bool, 
     let mut outs = vec![observe(&b.transport, "-".into())];
     let mut scratch = Run::new("c06", "/tmp/vh-c06-scratch");
     let run: &mut Run = if emit { run } else { &mut scratch };
+    let mut peer_traffic: Option<&'static str> = None;   // the previous event was an indication / media datagram from the selected pair's remote address
     for p in &c.pkts {
         if let What::Tick = p.what {
+            let state_before_tick = b.transport.state();
             let before_ids = b.transport.verif_pending_ids();
             let t = b.transport.clone(); let rt = &env.rt;
             let r = crate::catch(std::panic::AssertUnwindSafe(move || rt.block_on(t.verif_run_keepalive_tick())));
@@ -471,11 +526,17 @@ fn exec_built(env: &mut Env, run: &mut Run, c: &Case, mut b: Built, emit: bool, 
             input.push_str(&format!(" tick,{}", new_ids.first().map(|i| hex(i)).unwrap_or_else(|| "-".into())));
             if let Some(msg) = &sent { let lp = b.transport.get_selected_pair().map(|p| p.local.priority); keepalive_oracle(run, c, &b, msg, lp); run.count("keepalive_messages_checked"); }
             let after = observe(&b.transport, ka.to_string());
+            // RFC 8445 §11: Binding indications (and media) from the selected peer are its keepalives — they count as liveness
+            if let (Some(kind), true, true) = (peer_traffic.take(), c.webrtc, matches!(state_before_tick, IceTransportState::Connected | IceTransportState::Disconnected)) {
+                if after.state != IceTransportState::Connected { run.fail(&format!("liveness:{kind}-from-selected-peer-address-not-counted"), &c.text(), &after.text()); }
+                run.count(&format!("liveness_peer_{kind}_then_tick"));
+            }
             if verbose { println!("tick -> {}", after.text()); }
             outs.push(after);
             continue;
         }
         let src = env.peer_addr(p.src, p.sock);
+        peer_traffic = match &p.what { What::Ind | What::Data(_) if b.transport.get_selected_pair().map(|sp| sp.remote.address) == Some(src) => Some(if matches!(p.what, What::Ind) { "indication" } else { "media" }), _ => None };
         let (bytes, authentic) = packet_bytes(&b, p, &mut tx_rng);
         let sk = match p.sock { Sk::Udp0 | Sk::Udp1 => "udp", Sk::Tcp => "tcp", Sk::Turn => "turn", Sk::Shared => "shared", Sk::Listener => "listener" };
         input.push_str(&format!(" pkt,{sk},{},{},{}", addr3(&env.local_addr_of(p.sock)), addr3(&src), hex(&bytes)));
@@ -564,7 +625,8 @@ fn reply_oracle(run: &mut Run, c: &Case, rep: &[u8], req: &[u8], src: SocketAddr
 
 fn gen_what(rng: &mut Rng, pending: u8) -> What {
     match rng.below(20) {
-        0..=10 => What::Req { user: *rng.pick(&[User::None, User::Wrong, User::Ok, User::Ok]), mi: *rng.pick(&[Mi::None, Mi::Corrupt, Mi::WrongKey, Mi::Ok, Mi::Ok, Mi::RemoteKey]), uc: rng.chance(1, 2), method: if rng.chance(1, 8) { rng.below(3) as u8 } else { 0 } },
+        0..=10 => What::Req { user: { let k = rng.below(NEAR_USERS as u64) as u8; *rng.pick(&[User::None, User::Wrong, User::Ok, User::Ok, User::Ok, User::Near(k)]) },
+            mi: { let k = rng.below(NEAR_KEYS as u64) as u8; *rng.pick(&[Mi::None, Mi::Corrupt, Mi::WrongKey, Mi::Ok, Mi::Ok, Mi::Ok, Mi::RemoteKey, Mi::NearKey(k)]) }, uc: rng.chance(1, 2), method: if rng.chance(1, 8) { rng.below(3) as u8 } else { 0 } },
         11..=14 => What::Resp { tx: if rng.chance(2, 3) && pending > 0 { rng.below(pending as u64) as u8 } else { 200 }, error: rng.chance(1, 3), method: if rng.chance(1, 6) { 1 } else { 0 } },
         15 => if rng.chance(1, 2) { What::Ind } else { What::Raw { layout: rng.below(LAYOUTS.len() as u64) as u8, uc: rng.chance(1, 2) } },
         16 => { let n = rng.range(1, 40) as usize; let mut g = rng.bytes(n); g[0] = rng.below(2) as u8; What::Garbage(g) }
@@ -667,11 +729,83 @@ fn demux_tcp_cases(env: &mut Env, run: &mut Run) {
                 else if after.rems != before.rems { "candidate-added" } else if after.selsock != before.selsock { "selected-socket-changed" } else { "" };
             if !field.is_empty() { run.fail(&format!("unauth:demux-tcp-first-frame:{role}:{field}"), &case, &format!("{} -> {}", before.text(), after.text())); }
             if streams_after != streams_before { run.count("observation_unauthenticated_tcp_connection_registered_before_authentication");
-                if with_genuine_before { run.count("observation_unauthenticated_tcp_connection_replaced_genuine_stream_in_table"); } }
+                // known finding (not one of the four named effects): the table is keyed by the listen address, the newest connection wins
+                if with_genuine_before { run.fail("preauth:tcp-stream-table:attach-demuxed:genuine-stream-replaced-by-unauthenticated-connection", &case, &format!("{streams_before:?} -> {streams_after:?}")); } }
         } else if !controlling && after.nom != Some(true) { run.fail("demux-tcp:genuine-first-frame-not-honoured", &case, &after.text()); }
         run.count(&format!("demux_tcp_{first}"));
         transport.stop();
         drop(keep);
+    }}}}
+}
+
+/// `run_tcp_listen_loop` (the accept loop of a passive ICE-TCP candidate, hook `verif_run_tcp_listen_loop`): a
+/// connection is stored under the listener key and handed to the runner before a single byte is read. Oracle:
+/// a mere TCP connect (optionally followed by an unauthenticated request nobody has read yet) changes none of
+/// state / nomination / selected pair / remote candidates / selected socket. Known finding: it REPLACES the
+/// stream of a genuine, nominated peer in the table, after which `resolve_socket` (used by the keepalive tick and by
+/// the selection after the checks) hands out the stranger's connection.
+fn listen_loop_cases(env: &mut Env, run: &mut Run) {
+    use tokio::io::{AsyncReadExt, AsyncWriteExt};
+    for controlling in [false, true] { for state in [1u8, 2, 5] { for with_genuine_before in [false, true] { for sends in ["nothing", "unauth-request"] {
+        let (transport, _r) = IceTransport::new(rustrtc::RtcConfiguration::default());
+        transport.set_role(if controlling { IceRole::Controlling } else { IceRole::Controlled });
+        transport.set_remote_parameters(rustrtc::transports::ice::IceParameters::new(REMOTE_UFRAG, REMOTE_PWD));
+        transport.verif_set_state(STATES[state as usize]);
+        let role = if controlling { "controlling" } else { "controlled" };
+        let case = format!("tcp-accept role={role} state={} sends={sends} genuine-before={with_genuine_before}", STATE_NAMES[state as usize]);
+        let t = transport.clone();
+        let (before, after, streams_before, streams_after, keepalive_to) = env.rt.block_on(async {
+            let l = Arc::new(TcpListener::bind("127.0.0.1:0").await.unwrap());
+            let la = l.local_addr().unwrap();
+            let lc = IceCandidate::host_tcp(la, 1, TcpType::Passive);
+            t.verif_add_local_candidate(lc.clone());
+            let t2 = t.clone();
+            let work = async {
+                let mut genuine = None;
+                if with_genuine_before {
+                    let g = TcpStream::connect(la).await.unwrap();
+                    tokio::time::sleep(Duration::from_millis(20)).await;
+                    // the genuine peer has been nominated on this connection: remote candidate, selected pair, nomination complete
+                    let rc = IceCandidate::host_tcp(g.local_addr().unwrap(), 1, TcpType::Active);
+                    t.verif_add_remote_candidate_quiet(rc.clone());
+                    t.verif_set_selected_pair(Some(IceCandidatePair::new(lc.clone(), rc)));
+                    t.verif_set_nomination_complete(Some(true));
+                    genuine = Some(g);
+                }
+                let before = observe(&t, "-".into());
+                let streams_before = t.verif_tcp_streams();
+                let mut x = TcpStream::connect(la).await.unwrap();
+                if sends == "unauth-request" {
+                    let m = StunMessage { class: StunClass::Request, method: StunMethod::Binding, transaction_id: [3; 12],
+                        attributes: vec![StunAttribute::Username("zzzz:peer".into()), StunAttribute::Priority(1), StunAttribute::UseCandidate] }.encode(Some(b"nope"), true).unwrap();
+                    let mut framed = (m.len() as u16).to_be_bytes().to_vec(); framed.extend_from_slice(&m);
+                    let _ = x.write_all(&framed).await;
+                }
+                tokio::time::sleep(Duration::from_millis(20)).await;
+                let after = observe(&t, "-".into());
+                let streams_after = t.verif_tcp_streams();
+                // where does the keepalive for the selected (genuine) peer go now?
+                let mut keepalive_to = "-";
+                if with_genuine_before && matches!(STATES[state as usize], IceTransportState::Connected | IceTransportState::Disconnected) {
+                    t.verif_run_keepalive_tick().await;
+                    let mut buf = [0u8; 512];
+                    let gx = tokio::time::timeout(Duration::from_millis(30), genuine.as_mut().unwrap().read(&mut buf)).await.map(|r| r.unwrap_or(0)).unwrap_or(0);
+                    let xx = tokio::time::timeout(Duration::from_millis(30), x.read(&mut buf)).await.map(|r| r.unwrap_or(0)).unwrap_or(0);
+                    keepalive_to = if xx > 0 { "unauthenticated-connection" } else if gx > 0 { "genuine-connection" } else { "nowhere" };
+                }
+                drop(genuine);
+                (before, after, streams_before, streams_after, keepalive_to)
+            };
+            tokio::select! { biased; r = work => r, _ = t2.verif_run_tcp_listen_loop(l.clone()) => unreachable!("listen loop ended") }
+        });
+        let field = if after.state != before.state { "state-changed" } else if after.nom != before.nom { "nomination-completed" } else if after.sel != before.sel { "selected-pair-changed" }
+            else if after.rems != before.rems { "candidate-added" } else if after.selsock != before.selsock { "selected-socket-changed" } else { "" };
+        if !field.is_empty() { run.fail(&format!("unauth:tcp-accept:{role}:{field}"), &case, &format!("{} -> {}", before.text(), after.text())); }
+        if streams_after == streams_before { run.count("tcp_accept_not_registered"); } else { run.count("observation_unauthenticated_tcp_connection_registered_before_authentication"); }
+        if with_genuine_before && streams_after != streams_before { run.fail("preauth:tcp-stream-table:listen-loop:genuine-stream-replaced-by-unauthenticated-connection", &case, &format!("{streams_before:?} -> {streams_after:?}")); }
+        if keepalive_to == "unauthenticated-connection" { run.fail("preauth:tcp-stream-table:listen-loop:keepalive-for-the-selected-peer-sent-to-unauthenticated-connection", &case, ""); }
+        run.count(&format!("tcp_accept_keepalive_to_{keepalive_to}"));
+        transport.stop();
     }}}}
 }
 
@@ -768,6 +902,13 @@ pub fn run(args: &Args) {
             cases.push(Case { remotes, rp: mi == Mi::RemoteKey || uc, pkts: vec![Pkt { sock, src: 0, what: What::Req { user, mi, uc, method: 0 } }], ..base(controlling, state) });
         }}}
     }}}}
+    // the CLASSES "key other than the local password" / "username other than <ufrag>:…": every near-miss key with the right
+    // USERNAME, every near-miss USERNAME with the right key, x ±USE-CANDIDATE x role x {New, Checking, Disconnected} x {UDP, TCP}
+    for controlling in [false, true] { for state in [0u8, 1, 5] { for sock in [Sk::Udp0, Sk::Tcp] { for uc in [false, true] {
+        let remotes = if sock == Sk::Tcp { 8 } else { 1 };
+        for k in 0..NEAR_KEYS { cases.push(Case { remotes, rp: uc, pkts: vec![Pkt { sock, src: 0, what: What::Req { user: User::Ok, mi: Mi::NearKey(k), uc, method: 0 } }], ..base(controlling, state) }); }
+        for k in 0..NEAR_USERS { cases.push(Case { remotes, rp: uc, pkts: vec![Pkt { sock, src: 0, what: What::Req { user: User::Near(k), mi: Mi::Ok, uc, method: 0 } }], ..base(controlling, state) }); }
+    }}}}
     run.count_n("exhaustive_request_matrix", cases.len() as u64);
     // malformed / unusual credential layouts x ±USE-CANDIDATE x roles x states x known/unknown source x {UDP, accepted TCP stream}
     let n0 = cases.len();
@@ -817,6 +958,7 @@ pub fn run(args: &Args) {
     raw_auth_stream(&mut env, &mut run, &mut rng, args.tier_thorough);
     probe_cases(&mut env, &mut run, &mut rng, args.tier_thorough);
     demux_tcp_cases(&mut env, &mut run);
+    listen_loop_cases(&mut env, &mut run);
     run.exhaustive = true;
     run.notes.insert("exhaustive_scope".into(), serde_json::json!("request matrix USERNAME{none,wrong,correct} x MESSAGE-INTEGRITY{none,corrupted,wrong-key,correct,remote-password} x ±USE-CANDIDATE x known/unknown source x all 7 transport states x {controlled,controlling} x {UDP, shared UDP mux, TCP listener, accepted TCP stream, TURN relay}; 28 malformed credential layouts; liveness matrix {Connected,Disconnected} x timeouts x remote-params x mode x selected pair x 12 datagram kinds x 2 sources followed by two keepalive ticks; responses {pending, second pending, unknown id} x {success,error} x 3 repetitions x roles x states"));
     run.finish();
